@@ -22,7 +22,7 @@ pub fn do_derive_schema(input: DeriveInput) -> syn::Result<TokenStream> {
     };
     let (impl_generics, ty_generics, where_clause) = generics.split_for_impl();
 
-    let ty = generator.generate_type(&input.data, span, name.to_string())?;
+    let ty = generator.generate_type(&input.data, span, unraw(name))?;
 
     let postcard_schema = &generator.postcard_schema;
     let expanded = quote! {
@@ -32,6 +32,11 @@ pub fn do_derive_schema(input: DeriveInput) -> syn::Result<TokenStream> {
     };
 
     Ok(expanded)
+}
+
+/// The name serde uses for an identifier: raw identifiers (`r#type`) lose their `r#` prefix.
+fn unraw(ident: &syn::Ident) -> String {
+    ident.to_string().trim_start_matches("r#").to_owned()
 }
 
 struct Generator {
@@ -93,7 +98,7 @@ impl Generator {
             }
             Data::Enum(data) => {
                 let variants = data.variants.iter().map(|v| {
-                    let (name, data) = (v.ident.to_string(), self.generate_variants(&v.fields));
+                    let (name, data) = (unraw(&v.ident), self.generate_variants(&v.fields));
                     quote! { #postcard_schema::schema::Variant { name: #name, data: #data } }
                 });
 
@@ -117,7 +122,7 @@ impl Generator {
             syn::Fields::Named(fields) => {
                 let fields = fields.named.iter().map(|f| {
                     let ty = &f.ty;
-                    let name = f.ident.as_ref().unwrap().to_string();
+                    let name = unraw(f.ident.as_ref().unwrap());
                     quote_spanned!(f.span() => &#postcard_schema::schema::NamedField { name: #name, ty: <#ty as #postcard_schema::Schema>::SCHEMA })
                 });
                 quote! { #postcard_schema::schema::Data::Struct(&[
@@ -153,7 +158,7 @@ impl Generator {
             syn::Fields::Named(fields) => {
                 let fields = fields.named.iter().map(|f| {
                     let ty = &f.ty;
-                    let name = f.ident.as_ref().unwrap().to_string();
+                    let name = unraw(f.ident.as_ref().unwrap());
                     quote_spanned!(f.span() => &#postcard_schema::schema::NamedField { name: #name, ty: <#ty as #postcard_schema::Schema>::SCHEMA })
                 });
                 quote! { #postcard_schema::schema::Data::Struct(&[
